@@ -195,6 +195,9 @@ EXTRA = [
     ("UntypedLabel(Count,Sum)", "H.UntypedLabel(a=H.Count(), b=H.Sum(qx))"),
     ("Branch(Count,Bin)", "H.Branch(H.Count(), H.Bin(2, 0.0, 2.0, qx))"),
     ("Select>Count", "H.Select(qb, H.Count())"),
+    ("Fraction(float)", "H.Fraction(qx, H.Count())"),
+    ("Select(float)>Sum", "H.Select(qx, H.Sum(qy))"),
+    ("Bin>Fraction(float)", "H.Bin(2, 0.0, 2.0, qy, H.Fraction(qx, H.Count()))"),
     ("Branch(IrregularlyBin,Sum)", "H.Branch(H.IrregularlyBin([0.0, 1.0], qx), H.Sum(qy))"),
     ("Label(Stack,Stack)", "H.Label(a=H.Stack([0.0, 1.0], qx), b=H.Stack([0.5], qy))"),
     ("Index(CentrallyBin,CentrallyBin)", "H.Index(H.CentrallyBin([0.0, 2.0], qx), H.CentrallyBin([0.0, 2.0], qy))"),
@@ -222,6 +225,9 @@ def harnesses(tier):
     for t in slots + cat.deep():
         out.append(vec(t, 2, "none", timeout=big, fixy=(tier == "quick")))
         out.append(vec(t, 2, "array", timeout=big, fixy=(tier == "quick")))
+        if "Average" in t.expr or "Deviate" in t.expr or "Profile" in t.expr:
+            # successive batches: a node filled by the first batch may receive no positive-weight row from the second
+            out.append(vec(t, 2, "none", split=True, timeout=big, fixy=(tier == "quick")))
     if tier == "thorough":
         for t in units:
             out.append(vec(t, 3, "none", timeout=240))
